@@ -9,6 +9,7 @@ import PygModel.DictCall
 import PygProofs.Lemmas.USetLemmas
 import PygProofs.Lemmas.DictCallLemmas
 import PygProofs.Lemmas.DictCallOrder
+import PygProofs.Lemmas.DAHeapLemmas
 
 namespace Pyg.Props.C16
 open Pyg Pyg.USet Pyg.DA Pyg.DictCall
@@ -460,6 +461,123 @@ theorem call_single (d : Env V) (k : String) (f : Fn V) :
 
 end dictcall
 
+section daheap
+open Pyg.DAHeap
+variable {V : Type}
+
+/-- FRAME.  No operation changes an existing handle other than the target of an in-place operation
+(`d[k] = v`, `d.k = v`, `del d[k]`, `del d.k`): every operator (`copy - & + [[..]] relabel`) and
+every read leaves all existing objects exactly as they were, and a failing operation changes
+nothing at all. -/
+theorem da_frame (heap : Heap V) (op : DAHeap.Op V) (i : Nat) (hi : i < heap.length)
+    (ht : op.target ≠ some i) : (exec heap op)[i]? = heap[i]? := by
+  unfold exec
+  cases h : DAHeap.step heap op with
+  | error e => rfl
+  | ok r =>
+    obtain ⟨heap', out⟩ := r
+    rcases step_shape heap heap' op out h with ⟨d, rfl, _, _⟩ | ⟨t, d, d', htg, _, rfl, _, _⟩ | ⟨rfl, _⟩
+    · exact List.getElem?_append_left hi
+    · have : t ≠ i := fun e => ht (e ▸ htg)
+      exact List.getElem?_set_ne this
+    · rfl
+
+/-- an operator allocates exactly one handle (its result, at the end of the heap) when it succeeds;
+in-place operations and reads allocate nothing; an in-place operation keeps the class of its target -/
+theorem da_alloc (heap : Heap V) (op : DAHeap.Op V) :
+    ((exec heap op).length = heap.length ∨
+      (op.target = none ∧ (exec heap op).length = heap.length + 1)) ∧
+    ∀ t, op.target = some t → ((exec heap op)[t]?).map (·.cls) = (heap[t]?).map (·.cls) := by
+  unfold exec
+  cases h : DAHeap.step heap op with
+  | error e => exact ⟨Or.inl rfl, fun _ _ => rfl⟩
+  | ok r =>
+    obtain ⟨heap', out⟩ := r
+    rcases step_shape heap heap' op out h with ⟨d, rfl, _, hn⟩ | ⟨t, d, d', htg, hd, rfl, hc, _⟩ | ⟨rfl, hn⟩
+    · exact ⟨Or.inr ⟨hn, by simp⟩, fun t ht => by simp [hn] at ht⟩
+    · refine ⟨Or.inl (by simp), fun t' ht' => ?_⟩
+      rw [htg] at ht'; cases ht'
+      have hlt : t < heap.length := by
+        rcases Nat.lt_or_ge t heap.length with h | h
+        · exact h
+        · rw [List.getElem?_eq_none h] at hd; cases hd
+      simp only [List.getElem?_set_self hlt, hd, Option.map_some, hc]
+    · exact ⟨Or.inl rfl, fun t ht => by simp [hn] at ht⟩
+
+/-- ATTRIBUTE ACCESS MIRRORS ITEM ACCESS: `d.k` is `d[k]`, `d.k = v` is `d[k] = v`, `del d.k` is
+`del d[k]` — same result, same effect on the heap — except that a missing key is reported as
+`AttributeError` instead of `KeyError` (`asAttr`). -/
+theorem da_attr_mirrors_item (heap : Heap V) (h : Nat) (k : String) (v : V) :
+    DAHeap.step heap (.getAttr h k) = asAttr (DAHeap.step heap (.getItem h k)) ∧
+    DAHeap.step heap (.setAttr h k v) = DAHeap.step heap (.setItem h k v) ∧
+    DAHeap.step heap (.delAttr h k) = asAttr (DAHeap.step heap (.delItem h k)) := by
+  refine ⟨?_, rfl, ?_⟩
+  · simp only [DAHeap.step, bind, Except.bind, pure, Except.pure, deref]
+    cases heap[h]? with
+    | none => rfl
+    | some d =>
+      dsimp only
+      cases getKey d k with
+      | error e => cases e <;> rfl
+      | ok v => rfl
+  · simp only [DAHeap.step, bind, Except.bind, pure, Except.pure, deref]
+    cases heap[h]? with
+    | none => rfl
+    | some d =>
+      dsimp only
+      cases delKey d k with
+      | error e => cases e <;> rfl
+      | ok v => rfl
+
+/-- item assignment and deletion write exactly one key of exactly one object -/
+theorem da_setitem (heap : Heap V) (h : Nat) (k : String) (v : V) (d : D V) (hd : heap[h]? = some d) :
+    ∃ d', (exec heap (.setItem h k v))[h]? = some d' ∧ d'.cls = d.cls ∧
+      ∀ j, lookup j d'.items = if j = k then some v else lookup j d.items := by
+  have hlt : h < heap.length := by
+    rcases Nat.lt_or_ge h heap.length with h' | h'
+    · exact h'
+    · rw [List.getElem?_eq_none h'] at hd; cases hd
+  refine ⟨{ d with items := set k v d.items }, ?_, rfl, fun j => lookup_set j k v d.items⟩
+  simp [exec, DAHeap.step, deref, hd, bind, Except.bind, pure, Except.pure, List.getElem?_set_self hlt]
+
+theorem da_delitem (heap : Heap V) (h : Nat) (k : String) (d : D V) (hd : heap[h]? = some d) :
+    (lookup k d.items = none → DAHeap.step heap (.delItem h k) = .error .key) ∧
+    (lookup k d.items ≠ none → ∃ d', (exec heap (.delItem h k))[h]? = some d' ∧ d'.cls = d.cls ∧
+      ∀ j, lookup j d'.items = if j = k then none else lookup j d.items) := by
+  have hlt : h < heap.length := by
+    rcases Nat.lt_or_ge h heap.length with h' | h'
+    · exact h'
+    · rw [List.getElem?_eq_none h'] at hd; cases hd
+  constructor
+  · intro hn
+    simp [DAHeap.step, deref, hd, delKey, hn, bind, Except.bind, pure, Except.pure, throw, throwThe,
+      MonadExceptOf.throw]
+  · intro hs
+    refine ⟨subKey d k, ?_, rfl, fun j => lookup_filter_ne j k d.items⟩
+    cases hl : lookup k d.items with
+    | none => exact absurd hl hs
+    | some w =>
+      simp [exec, DAHeap.step, deref, hd, delKey, hl, bind, Except.bind, pure, Except.pure,
+        List.getElem?_set_self hlt]
+
+/-- invariant over ANY history: the keys of every object are distinct -/
+theorem da_keys_nodup (ops : List (DAHeap.Op V)) : ∀ d ∈ DAHeap.run ops, (keys d).Nodup := by
+  suffices h : ∀ (ops : List (DAHeap.Op V)) (heap : Heap V), (∀ d ∈ heap, (keys d).Nodup) →
+      ∀ d ∈ ops.foldl exec heap, (keys d).Nodup from h ops [] (by simp)
+  intro ops
+  induction ops with
+  | nil => intro heap inv; simpa using inv
+  | cons op ops ih =>
+    intro heap inv
+    simp only [List.foldl_cons]
+    apply ih
+    unfold exec
+    cases h : DAHeap.step heap op with
+    | error e => exact inv
+    | ok r => exact step_keys_nodup heap r.1 op r.2 inv h
+
+end daheap
+
 /-! ### non-vacuity -/
 
 example : mk [1, 3, 2, 1, 3, 4] = [1, 3, 2, 4] := by decide
@@ -505,5 +623,11 @@ example : WellScoped (setAll exD [("c", 10)]) exCs := by
 example : Missing exD [("x", sumFn ["a", "zz"] 0)] :=
   ⟨("x", sumFn ["a", "zz"] 0), by simp, "zz", by simp [sumFn], by simp, by decide⟩
 example : call exD [] [("y", sumFn ["x"] 0), ("x", sumFn ["a", "zz"] 0)] = .error .type := rfl
+
+/-- a dictattr history: operators allocate, in-place writes hit their target only -/
+example : DAHeap.run [.new 2 [("a", (1 : Int)), ("b", 2)], .copy 0, .setAttr 1 "c" 3, .subK 0 "a", .delItem 1 "a",
+      .delAttr 0 "zz", .addH 2 1] =
+    [⟨2, [("a", 1), ("b", 2)]⟩, ⟨2, [("b", 2), ("c", 3)]⟩, ⟨2, [("b", 2)]⟩, ⟨2, [("b", 2), ("c", 3)]⟩] := rfl
+example : (DAHeap.Op.subK 0 "a" : DAHeap.Op Int).target ≠ some 0 := by decide
 
 end Pyg.Props.C16
